@@ -29,12 +29,18 @@ RULE = ('function specs kind in {lin, aff, cubic(flat root), sat(urating), kink,
         'count, and for bisect the final xmin/xmax); batches containing expm lanes agree within a tolerance '
         'sized from the property (bisect 1e-8, chandrupatla 1e-9 of the width) plus the flat zone 4.5e-16/slope')
 PARTIAL = ['chandrupatla_converges_partial: termination of every lane within the iteration cap is not a theorem '
-           '(the IQI step has no proved rate); exercised by the tie and the search only',
-           'chandrupatla_tlim_partial: the 2*tol bound is proved for the iteration at which the lane is flagged, '
-           'not for later iterations of a lane that keeps being iterated while other lanes are unfinished',
-           'chandrupatla rejects only same-sign brackets: a reversed bracket is accepted '
-           '(chandrupatla_reversed_bracket_counterexample)',
-           'all theorems are about the real-number reading of the model; rounding is covered by the tie only']
+           '(the IQI step has no proved rate); proved instead: success, containment, sign bracket, smaller-|f| end, '
+           'exact zero when fm == 0, a root within |a-b| of the result. The cap is exercised by the tie; the search '
+           'counts (does not report) tolerance misses of the piecewise-linear `kink` family, which is outside the '
+           "property's family and on which 50 iterations can leave up to ~2e-9 of the width",
+           'chandrupatla_tlim_partial: the 2*tol bound is proved for the iteration at which the lane is flagged '
+           '(and for a lane solved alone: chandrupatla_single_lane), not for later iterations of a lane that keeps '
+           'being iterated while other lanes are unfinished',
+           'chandrupatla_rejects covers same-sign brackets only; a reversed bracket (xmin > xmax) is accepted and a '
+           'non-root returned: chandrupatla_reversed_bracket_counterexample (search class '
+           'chandrupatla:invalid-bracket-accepted:reversed)',
+           'all theorems are about the real-number reading of the model; rounding, NaN/inf behaviour and the '
+           'scalar `phi**2` through libm pow are covered by the tie only']
 ASSUMPTIONS = ['real-number semantics of binary64 formulas (DESIGN 3.1)',
                'the user function is element-wise (lane i of f(x) depends on lane i of x only)',
                'numpy ufunc semantics of sign/clip/maximum/minimum/choose as modelled in Model/RootFind.lean, '
@@ -316,10 +322,6 @@ def lean_chand(lean, lanes, eps_m, eps_a, maxiter, scalar=False):
     if ws and ws[0] == 'err':
         return {'st': 'err', 'kind': ws[1]}
     return {'st': 'bad', 'text': r[:200]}
-
-
-def kind_of_other(e):
-    return e
 
 
 def prop_tol(method, lane):
@@ -709,7 +711,6 @@ def oracle_case(method, lanes, params):
         R = real_bisect(lanes, tol, maxiter, record=True)
     else:
         R = real_chand(lanes, params.get('eps_m'), params.get('eps_a'), params.get('maxiter'), record=True)
-    ep = f'copulas.optimize.{method}'
     if R['st'] != 'ok':
         return [(f'{method}:valid-bracket-rejected', R.get('kind'), 'a valid bracket is solved')], R
     res = R['res']
